@@ -28,7 +28,8 @@ use tower::layer::util::Identity;
 
 /// current-thread runtime with a paused clock: `settle()` is a deterministic run-until-idle barrier.
 pub fn rt() -> tokio::runtime::Runtime {
-	tokio::runtime::Builder::new_current_thread().enable_all().start_paused(true).build().expect("runtime")
+	// no I/O driver: everything in memory (duplex, channels); avoids holding an epoll fd per case
+	tokio::runtime::Builder::new_current_thread().enable_time().start_paused(true).build().expect("runtime")
 }
 
 /// Run until every other task is idle (the paused clock only advances when nothing is runnable and no
